@@ -212,11 +212,18 @@ Definition curved_rot (a0 a1 : V3) : option M3 :=
                | Some r2 => Some (mm3 r2 r1)
                end
   end.
-Definition mk_curved (sph : bool) (a0 a1 : V3) (r : T) : option det3d :=
+(* repaired alignment (proposed fix C19_curved-detector-antiparallel-axes): the matrix whose columns are the
+   images of the native frame, -e_y -> axes[0], e_z -> axes[1], e_x -> -(axes[0] x axes[1]) *)
+Definition curved_frame (a0 a1 : V3) : M3 :=
+  let b0 := sdiv3 a0 (norm3 a0) in let b1 := sdiv3 a1 (norm3 a1) in
+  tr3 (neg3 (cross3 b0 b1), neg3 b0, b1).
+(* [fixed = false]: the code as it is (two successive rotation_matrix_from_to); [fixed = true]: repaired.
+   The harness measures which one /repo shows. *)
+Definition mk_curved (fixed sph : bool) (a0 a1 : V3) (r : T) : option det3d :=
   if norm3 (cross3 a0 a1) =? 0 then None
   else if negb (dot3 a0 a1 =? 0) then None     (* axes not perpendicular *)
   else if r <=? 0 then None
-  else match curved_rot a0 a1 with
+  else match (if fixed then Some (curved_frame a0 a1) else curved_rot a0 a1) with
        | None => None
        | Some m => let b0 := sdiv3 a0 (norm3 a0) in let b1 := sdiv3 a1 (norm3 a1) in
                    Some (if sph then Sph b0 b1 r m else Cyl b0 b1 r m)
@@ -406,7 +413,7 @@ Definition fan_getitem (g : fan) (axis_arg : option V2) : option fan :=
 Inductive curv3 := CFlat | CCyl (r : T) | CSph (r : T).
 (* ConeBeamGeometry(apart, dpart, src_radius, det_radius, det_curvature_radius, pitch, axis,
                     offset_along_axis, src_to_det_init=None, det_axes_init=None, translation) *)
-Definition mk_cone (rs rd : T) (curv : curv3) (pitch off : T) (axis : V3)
+Definition mk_cone (fixed : bool) (rs rd : T) (curv : curv3) (pitch off : T) (axis : V3)
     (s2d : option V3) (axes : option (V3 * V3)) (tr : V3) : option cone :=
   obind (tsys3 axis (0, 0, 1)) (fun m =>
   let sd := match s2d with Some p => p | None => mv3 m (0, 1, 0) end in
@@ -416,18 +423,18 @@ Definition mk_cone (rs rd : T) (curv : curv3) (pitch off : T) (axis : V3)
   obind (unit_axis axis) (fun ua =>
   obind (match curv with
          | CFlat => mk_flat2 a0 a1
-         | CCyl r => mk_curved false a0 a1 r
-         | CSph r => mk_curved true a0 a1 r end) (fun d =>
+         | CCyl r => mk_curved fixed false a0 a1 r
+         | CSph r => mk_curved fixed true a0 a1 r end) (fun d =>
   if rs <? 0 then None else if rd <? 0 then None
   else if (rs =? 0) && (rd =? 0) then None
   else Some {| c_rs := rs; c_rd := rd; c_s2d := s; c_axis := ua; c_tr := tr;
                c_pitch := pitch; c_off := off; c_det := d;
                c_s2d_arg := s2d; c_axes_arg := axes |}))).
-Definition cone_frommatrix (rs rd : T) (curv : curv3) (pitch off : T) (m : M3) (tr : V3) : option cone :=
-  mk_cone rs rd curv pitch off (mv3 m (0, 0, 1)) (Some (mv3 m (0, 1, 0)))
+Definition cone_frommatrix (fixed : bool) (rs rd : T) (curv : curv3) (pitch off : T) (m : M3) (tr : V3) : option cone :=
+  mk_cone fixed rs rd curv pitch off (mv3 m (0, 0, 1)) (Some (mv3 m (0, 1, 0)))
           (Some (mv3 m (1, 0, 0), mv3 m (0, 0, 1))) tr.
-Definition cone_getitem (g : cone) : option cone :=
-  mk_cone (c_rs g) (c_rd g)
+Definition cone_getitem (fixed : bool) (g : cone) : option cone :=
+  mk_cone fixed (c_rs g) (c_rd g)
           (match c_det g with Flat2 _ _ => CFlat | Cyl _ _ r _ => CCyl r | Sph _ _ r _ => CSph r end)
           (c_pitch g) (c_off g) (c_axis g) (c_s2d_arg g) (c_axes_arg g) (c_tr g).
 
